@@ -113,7 +113,7 @@ def functions(txt):
 
 
 def impl_headers(txt):
-    return [(m.start(), " ".join(m.group(0).split())) for m in re.finditer(r"^(?:unsafe\s+)?impl\b[^{;]*", txt, flags=re.M)]
+    return [(m.start(), " ".join(m.group(0).split())) for m in re.finditer(r"^(?:unsafe\s+)?impl\b[^{]*", txt, flags=re.M)]
 
 
 def enclosing_impl(heads, pos):
@@ -193,6 +193,39 @@ def analyse(repo):
             if not carries:
                 alloc_shared = False
                 notes.append("alloc_shared: %s::%s takes %s but returns %s" % (path, f["name"], m.group(0), f["ret"]))
+    # lifetime flow through conversions: whatever arena-backed type or reference comes out of a safe
+    # function or a From/TryFrom impl carries a named lifetime that also goes in
+    ARENA_TY = r"(?:Box|Vec|String|IntoIter|Drain|DrainFilter|Splice|ChunkIter|Bump)\s*<\s*'(\w+)"
+    for path in ("src/collections/vec.rs", "src/collections/string.rs", "src/boxed.rs", "src/collections/collect_in.rs"):
+        txt = files.get(path, "")
+        heads = impl_headers(txt)
+        for pos, h in heads:
+            m = re.match(r"(?:unsafe\s+)?impl\s*(<.*?>)?\s*(?:core::convert::|std::convert::)?(From|TryFrom)\s*<(.*)>\s+for\s+(.*)$", h)
+            if not m:
+                continue
+            src_t, dst_t = m.group(3), m.group(4)
+            out_lts = re.findall(ARENA_TY, dst_t) + re.findall(r"&\s*'(\w+)", dst_t)
+            in_lts = set(re.findall(r"'(\w+)", src_t))
+            for lt in out_lts:
+                if lt == "_" or lt == "static" or lt not in in_lts:
+                    alloc_shared = False
+                    notes.append("alloc_shared: %s: `%s` produces lifetime '%s that does not come from its source" % (path, h, lt))
+            if re.search(r"(Box|Vec|String)\s*<\s*'_", dst_t) or (re.search(r"\b(Box|Vec|String)\b", dst_t) and "'" not in dst_t and "'" in src_t):
+                alloc_shared = False
+                notes.append("alloc_shared: %s: `%s` leaves the target's arena lifetime anonymous" % (path, h))
+        for f in functions(txt):
+            if not f["pub"] or f["unsafe"] or not f["ret"]:
+                continue
+            head = enclosing_impl(heads, f["pos"])
+            self_t = re.sub(r"^.*\bfor\s+", "", head) if re.search(r"\bfor\b", head) else re.sub(r"^(?:unsafe\s+)?impl\s*(<.*?>)?\s*", "", head)
+            avail = set(re.findall(r"'(\w+)", f["params"])) | set(re.findall(r"'(\w+)", self_t))
+            out_lts = re.findall(ARENA_TY, f["ret"]) + re.findall(r"&\s*'(\w+)", f["ret"])
+            for lt in out_lts:
+                if lt == "_":
+                    continue                    # elided: tied by the elision rules to an input
+                if lt == "static" or lt not in avail:
+                    alloc_shared = False
+                    notes.append("alloc_shared: %s::%s returns lifetime '%s that no argument carries (%s)" % (path, f["name"], lt, f["ret"]))
     # ---- f_reset_excl / f_iter_excl
     f = names.get("reset")
     reset_excl = bool(f) and receiver(f["params"]) == "&mut self"
